@@ -389,6 +389,21 @@ where
             ctx.count("wide_parent_cases", 1);
         }
     });
+    // one dimension beyond 16 bits: 65 535..=65 540 and 131 073 pixels wide (1..=3 rows) or tall
+    // (1..=3 columns) - counters and strides narrower than u32 (seeded `C09-12`)
+    const HUGE: [u32; 6] = [65_535, 65_536, 65_537, 65_538, 70_001, 131_073];
+    let hname: &'static str = Box::leak(format!("{}-beyond-16-bit", tname).into_boxed_str());
+    let hreps = run.tier(1u64, 6u64);
+    run.generate(hname, HUGE.len() as u64 * hreps, false, 0.1, |ctx, idx, rng| {
+        let long = HUGE[(idx % HUGE.len() as u64) as usize] + if idx >= HUGE.len() as u64 { rng.u32r(0, 300) } else { 0 };
+        let short = rng.u32r(1, 3);
+        if rng.chance(1, 2) {
+            one_case::<C, O>(ctx, tname, long, short, rng);
+        } else {
+            one_case::<C, O>(ctx, tname, short, long, rng);
+        }
+        ctx.count("images_with_a_side_beyond_16_bits", 1);
+    });
 }
 
 fn main() {
